@@ -7,6 +7,10 @@ Bounded-exhaustive enumeration of inputs (no sampling):
   struct   for every length 0..64 (thorough: 0..256), i.e. every tail length and block count in
            that range: eight fill patterns and six "one odd byte at position p" families for every
            p (thorough also: every byte value at every position for lengths <= 16, three fills)
+  long     the eight fill patterns at lengths 2^k-1 .. 2^k+3 for 2^k in {128, 256, 1024, 4096, 65536}
+           (thorough: + 512, 2^17), i.e. every tail length around each power of two.  (The implementation
+           never reduces h1 inside the block loop, so its cost grows quadratically with the length;
+           that is why this family stops where it does.)
   vectors  the thirteen published SMHasher-derived vectors, twelve text vectors, and SMHasher's
            verification constant 0xB0F57EE3 computed through the implementation
   nonbyte  strings with code points above 255 (second clause: deterministic, 32-bit): twice in
@@ -14,7 +18,7 @@ Bounded-exhaustive enumeration of inputs (no sampling):
            processes started with other PYTHONHASHSEED values
 
 each under 36 seeds {0, 2^32-1, 2^31-1, 0x9747b28c, the 32 one-bit seeds} (the length-3 full
-alphabet and the every-value-at-every-position family under {0, 1, 2^31, 2^32-1}).
+alphabet, the long and the every-value-at-every-position families under {0, 1, 2^31, 2^32-1}).
 
 Oracle: two references written without looking at pymemcache (vmc/ref/murmur3_ref.c with native
 uint32_t through ctypes; vmc/ref/murmur3.py over struct '<I' words, reduced mod 2^32 after every
@@ -41,9 +45,9 @@ RULE = (
     "cases = (string, seed); strings: all of length 0..2 (thorough 0..3) over the full byte alphabet, all of "
     "length 3..5 (thorough 3..7) over {00,01,7f,80,ff,61}, for every length 0..64 (thorough 0..256) eight "
     "fill patterns + six one-odd-byte-at-every-position families (thorough: + every byte value at every "
-    "position for lengths <= 16), published vectors, strings with code points > 255 (lengths 1..3 over a "
+    "position for lengths <= 16), the fill patterns at lengths 2^k-1..2^k+3 up to 65536 (thorough 2^17), published vectors, strings with code points > 255 (lengths 1..3 over a "
     "10-letter alphabet, one wide character at every position of lengths 1..64); seeds: 36 (0, 2^32-1, "
-    "2^31-1, 0x9747b28c, 32 one-bit seeds) or the 4 core seeds for the two largest families; every case is "
+    "2^31-1, 0x9747b28c, 32 one-bit seeds) or the 4 core seeds for the largest families; every case is "
     "evaluated by the implementation and by both references; non-trivial = every case except ('' , seed 0); "
     "distinct = distinct (length, seed, top four bits of the reference value) - i.e. how many different "
     "(shape, result region) combinations the oracle was actually exercised on"
@@ -58,6 +62,14 @@ XPROC_HASHSEEDS = ("1", "4242")
 
 def impl_bytes(b: bytes, seed: int):
     return murmur3_32(b.decode("latin-1"), seed)
+
+
+def shown(fn, *a):
+    """Value for a written-out sample; a sample must never abort the run."""
+    try:
+        return fn(*a)
+    except Exception as e:  # noqa
+        return f"raises {type(e).__name__}"
 
 
 # ---------------------------------------------------------------------------
@@ -87,6 +99,12 @@ def struct_inputs(L):
         for p in range(L):
             out.append(row[:p] + bytes([v]) + row[p + 1:])
     return out
+
+
+def long_lengths(tier):
+    """Lengths around powers of two (a length or block count kept in too few bits), fills only."""
+    tops = (127, 255, 1023, 4095, 65535) if tier == "quick" else (127, 255, 511, 1023, 4095, 65535, 131071)
+    return [n for t in tops for n in (t, t + 1, t + 2, t + 3, t + 4) if tier != "quick" or n > 64]
 
 
 def every_value_inputs(L):
@@ -259,6 +277,8 @@ def _jobs(tier):
         jobs += [("alpha", L, a) for a in range(6)]
     top = 64 if tier == "quick" else 256
     jobs += [("struct", L) for L in range(top, -1, -1)]
+    jobs = [("long", L, i) for L in long_lengths(tier) if L > 4000 for i in range(8)][::-1] + jobs
+    jobs += [("long", L, None) for L in long_lengths(tier) if L <= 4000]
     if tier != "quick":
         jobs += [("everyvalue", L) for L in range(1, 17)]
     return jobs
@@ -277,7 +297,7 @@ def _worker(job, chk):
         eval_batch(chk, inputs, SEEDS, "full_alphabet")
         if L == 2 and a == 0x80:
             b = inputs[0x7F]
-            chk.sample({"input": b, "seed": SEEDS[-1], "murmur3_32": impl_bytes(b, SEEDS[-1]),
+            chk.sample({"input": b, "seed": SEEDS[-1], "murmur3_32": shown(impl_bytes, b, SEEDS[-1]),
                         "c_ref": ref.c_ref(b, SEEDS[-1]), "struct_ref": ref.py_ref(b, SEEDS[-1])})
     elif kind == "full3":
         a = job[1]
@@ -289,15 +309,18 @@ def _worker(job, chk):
         eval_batch(chk, inputs, SEEDS, "reduced_alphabet")
         if L == 5 and a == 4:
             b = inputs[-2]
-            chk.sample({"input": b, "seed": 2**31, "murmur3_32": impl_bytes(b, 2**31),
+            chk.sample({"input": b, "seed": 2**31, "murmur3_32": shown(impl_bytes, b, 2**31),
                         "c_ref": ref.c_ref(b, 2**31), "struct_ref": ref.py_ref(b, 2**31)})
     elif kind == "struct":
         L = job[1]
         eval_batch(chk, struct_inputs(L), SEEDS, "structured")
         if L in (7, 64):
             b = struct_inputs(L)[5]
-            chk.sample({"input": b, "length": L, "seed": 1, "murmur3_32": impl_bytes(b, 1),
+            chk.sample({"input": b, "length": L, "seed": 1, "murmur3_32": shown(impl_bytes, b, 1),
                         "c_ref": ref.c_ref(b, 1), "struct_ref": ref.py_ref(b, 1)})
+    elif kind == "long":
+        fs = fills(job[1])
+        eval_batch(chk, fs if job[2] is None else [fs[job[2]]], SEEDS_CORE, "long")
     elif kind == "everyvalue":
         eval_batch(chk, every_value_inputs(job[1]), SEEDS_CORE, "every_value_every_position")
     elif kind == "vectors":
@@ -330,7 +353,7 @@ def _worker(job, chk):
                           f"published constant for MurmurHash3_x86_32 is 0xB0F57EE3", {"smhasher": True})
         chk.sample({"published_vector": "The quick brown fox jumps over the lazy dog", "seed": 0x9747B28C,
                     "expected": 0x2FA826CD,
-                    "murmur3_32": murmur3_32("The quick brown fox jumps over the lazy dog", 0x9747B28C)})
+                    "murmur3_32": shown(murmur3_32, "The quick brown fox jumps over the lazy dog", 0x9747B28C)})
     elif kind == "nonbyte":
         part = job[1]
         mine = nonbyte_values(chk.tier, part, chk)
@@ -352,7 +375,7 @@ def _worker(job, chk):
         if part == 0:
             s = "a\u0100\U0010ffff"
             chk.sample({"non_byte_string_codepoints": [ord(c) for c in s], "seed": 0,
-                        "murmur3_32": murmur3_32(s, 0),
+                        "murmur3_32": shown(murmur3_32, s, 0),
                         "oracle": "equal across calls and across interpreter processes; int in 0..2^32-1"})
     else:
         raise runner.HarnessError(f"unknown job {job!r}")
